@@ -9,6 +9,91 @@ use serde_json::{Value, json};
 
 pub struct C08;
 
+/// The crate's own `SimpleChannel` (tokio mpsc + a 10-minute receive timeout) under a paused tokio
+/// clock: a peer stops sending after its k-th message but keeps its channel ends open. Every
+/// honest party must come back (with the receive timeout) within one virtual hour.
+struct SilentAfter {
+    inner: polytune::channel::SimpleChannel,
+    k: usize,
+    sent: std::cell::Cell<usize>,
+}
+
+impl polytune::channel::Channel for SilentAfter {
+    type SendError = String;
+    type RecvError = String;
+    async fn send_bytes_to(&self, party: usize, data: Vec<u8>, phase: &str) -> Result<(), String> {
+        if self.sent.get() >= self.k {
+            return std::future::pending().await;
+        }
+        self.sent.set(self.sent.get() + 1);
+        self.inner.send_bytes_to(party, data, phase).await.map_err(|e| format!("{e:?}"))
+    }
+    async fn recv_bytes_from(&self, party: usize, phase: &str) -> Result<Vec<u8>, String> {
+        self.inner.recv_bytes_from(party, phase).await.map_err(|e| format!("{e:?}"))
+    }
+}
+
+fn simple_channel_silent_peer(spec: &Value) -> Vec<Violation> {
+    let n = spec["n"].as_u64().unwrap_or(2) as usize;
+    let k = spec["k"].as_u64().unwrap_or(0) as usize;
+    let seed = spec["seed"].as_u64().unwrap_or(0);
+    let silent = spec["silent"].as_u64().unwrap_or(1) as usize;
+    let spec2 = spec.clone();
+    std::thread::spawn(move || {
+        entropy::seed_thread(seed, 0x51e7);
+        let rt = tokio::runtime::Builder::new_current_thread().enable_time().start_paused(true).build().expect("runtime");
+        let local = tokio::task::LocalSet::new();
+        let cfg = gen_attack_cfg(seed, 900 + k as u64, n, silent == 0, 2);
+        let circuit = std::rc::Rc::new(cfg.base.circuit());
+        let inputs = cfg.base.input_bits();
+        let p_eval = cfg.base.p_eval;
+        let p_out: Vec<usize> = (0..n).collect();
+        let mut v = vec![];
+        let outcome = local.block_on(&rt, async {
+            let mut chans: Vec<Option<polytune::channel::SimpleChannel>> = polytune::channel::SimpleChannel::channels(n).into_iter().map(Some).collect();
+            let mut honest = vec![];
+            for p in 0..n {
+                let ch = chans[p].take().unwrap();
+                let (circuit, input, p_out) = (circuit.clone(), inputs[p].clone(), p_out.clone());
+                if p == silent {
+                    let w = SilentAfter { inner: ch, k, sent: std::cell::Cell::new(0) };
+                    tokio::task::spawn_local(async move {
+                        let _ = polytune::mpc(&w, &circuit, &input, p_eval, p, &p_out, None).await;
+                        // never drop the channel ends
+                        std::future::pending::<()>().await;
+                    });
+                } else {
+                    honest.push((p, tokio::task::spawn_local(async move { polytune::mpc(&ch, &circuit, &input, p_eval, p, &p_out, None).await.map_err(|e| format!("{e:?}")) })));
+                }
+            }
+            let mut res = vec![];
+            for (p, h) in honest {
+                match tokio::time::timeout(std::time::Duration::from_secs(3600), h).await {
+                    Ok(Ok(r)) => res.push((p, Some(r))),
+                    Ok(Err(e)) => res.push((p, Some(Err(format!("task failed: {e}"))))),
+                    Err(_) => res.push((p, None)),
+                }
+            }
+            res
+        });
+        for (p, r) in outcome {
+            match r {
+                None => v.push(Violation {
+                    class: "hang".into(),
+                    key: "hang:simple-channel-silent-peer".into(),
+                    detail: format!("SimpleChannel, n={n}: party {silent} went silent after {k} messages with its channel ends open; honest party {p} was still waiting after one virtual hour"),
+                    spec: spec2.clone(),
+                }),
+                Some(Err(e)) if e.contains("task failed") => v.push(Violation { class: "panic".into(), key: "panic:simple-channel".into(), detail: e, spec: spec2.clone() }),
+                _ => {}
+            }
+        }
+        v
+    })
+    .join()
+    .unwrap_or_default()
+}
+
 const SHARDS: u64 = 16;
 
 /// Oracle over one attacked run. `ref_alloc` = per-party (peak, largest) of the unfaulted run.
@@ -123,7 +208,7 @@ impl Check for C08 {
         "fault_enumeration"
     }
     fn rule(&self) -> String {
-        "for each attack configuration (n in {2,3}; corrupted evaluator or garbler; honest victims in both roles) an honest reference run is recorded; then one fault per simulated run is injected into the corrupted party's outgoing traffic: every message index x every mutation class (empty, truncations, appended junk, same-length random, bit flip, byte overwrite, structure-aware on the decoded value tree: bool flip, invalid bool byte, 128-bit xor, option Some<->None, element count +-1 / 0 at every nesting level with consistent prefix, inconsistent length prefixes 2^20 / 2^40 / 2^63 / 2^64-1), all byte vectors of a message emptied / cut to one byte at once, duplicate, replace-by-earlier, drop, swap-with-next (scripted adversary: positional replay of the reference, victim sees a bit-identical prefix and every later message), a seeded swarm of runs with 2-4 random structure-aware edits, and crash after every k-th message (live adversary). n=3 configurations take a seeded third of the sites in quick. Oracle: every honest task reaches Ok/Err, no poll panics, no honest party waits once all its peers terminated, steps <= 50x honest, allocation peak <= honest peak + 16 MiB + 64 x bytes received and no single request above 256 MiB. evaluations = attacked runs; distinct = (configuration, message index, mutation) triples whose fault actually fired".into()
+        "for each attack configuration (n in {2,3}; corrupted evaluator or garbler; honest victims in both roles) an honest reference run is recorded; then one fault per simulated run is injected into the corrupted party's outgoing traffic: every message index x every mutation class (empty, truncations, appended junk, same-length random, bit flip, byte overwrite, structure-aware on the decoded value tree: bool flip, invalid bool byte, 128-bit xor, option Some<->None, element count +-1 / 0 at every nesting level with consistent prefix, inconsistent length prefixes 2^20 / 2^40 / 2^63 / 2^64-1), all byte vectors of a message emptied / cut to one byte at once, duplicate, replace-by-earlier, drop, swap-with-next (scripted adversary: positional replay of the reference, victim sees a bit-identical prefix and every later message), a seeded swarm of runs with 2-4 random structure-aware edits, and crash after every k-th message (live adversary); plus the crate's own SimpleChannel on a paused tokio clock with a peer that goes silent after k messages while keeping its channel ends open (the honest parties must come back with the receive timeout within one virtual hour). n=3 configurations take a seeded third of the sites in quick. Oracle: every honest task reaches Ok/Err, no poll panics, no honest party waits once all its peers terminated, steps <= 50x honest, allocation peak <= honest peak + 16 MiB + 64 x bytes received and no single request above 256 MiB. evaluations = attacked runs; distinct = (configuration, message index, mutation) triples whose fault actually fired".into()
     }
     fn assumptions(&self) -> Vec<String> {
         vec![
@@ -148,6 +233,12 @@ impl Check for C08 {
                 c
             }
         };
+        let ks: &[u64] = if tier == Tier::Quick { &[0, 5, 20, 45] } else { &[0, 1, 2, 3, 5, 8, 13, 20, 30, 45, 60, 69, 100] };
+        for n in [2u64, 3] {
+            for k in ks {
+                v.push(json!({"simple_channel": true, "seed": seed, "n": n, "k": k, "silent": (k + n) % n}));
+            }
+        }
         for (n, ce, k, frac) in cfgs {
             for sh in 0..SHARDS {
                 v.push(json!({"seed": seed, "cfg": k, "n": n, "c_is_eval": ce, "ands": 3, "shard": sh, "frac": frac, "thorough": tier == Tier::Thorough}));
@@ -157,6 +248,14 @@ impl Check for C08 {
     }
     fn run_case(&self, case: &Value, cx: &CaseCx) -> CaseOut {
         let mut out = CaseOut::default();
+        if case.get("simple_channel").is_some() {
+            cx.begin(case);
+            out.evals += 1;
+            out.count("simple_channel_silent_peer_runs", 1);
+            out.distinct.push(entropy::fnv(0, case.to_string().as_bytes()));
+            out.violations.extend(simple_channel_silent_peer(case));
+            return out;
+        }
         let cfg = cfg_of_case(case);
         let seed = case["seed"].as_u64().unwrap();
         let shard = case["shard"].as_u64().unwrap();
@@ -248,6 +347,9 @@ impl Check for C08 {
         out
     }
     fn replay(&self, spec: &Value) -> Vec<Violation> {
+        if spec.get("simple_channel").is_some() {
+            return simple_channel_silent_peer(spec);
+        }
         let Some(spec) = parse_spec(spec) else { return vec![] };
         let cfg = AttackCfg {
             base: {
